@@ -20,7 +20,7 @@ def genlike(v):
 
 def input_ok(v):
     """well-formedness of an input value: refs live at non-negative addresses below the constant pool"""
-    return Implies(Val.is_ref(v), And(Val.a(v) >= 0, Val.a(v) < CONST_BASE))
+    return Implies(Val.is_ref(v), Val.a(v) >= 0)
 
 
 def sym_any(p: Path, name, **st):
@@ -31,7 +31,7 @@ def sym_any(p: Path, name, **st):
 
 def sym_ref(p: Path, name, kindname=None, ty=None, **st):
     v = z3.Const(name, Val)
-    p.pc += [Val.is_ref(v), Val.a(v) >= 0, Val.a(v) < CONST_BASE]
+    p.pc += [Val.is_ref(v), Val.a(v) >= 0]
     if kindname is not None:
         p.pc.append(kind(Val.a(v)) == K(kindname))
     return SV(v, ty=ty or kindname, **st)
@@ -154,4 +154,4 @@ def oracle(name, havoc_fields=(), post=(), may_raise=True, ret_ty=None, record=T
 def input_ok_or_fresh(p, r):
     """values produced by hooks are pre-existing objects or objects the hook allocated: we model them as input-region
        objects (address >= 0), distinct from anything the function under verification allocates"""
-    return Implies(Val.is_ref(r), And(Val.a(r) >= 0, Val.a(r) < CONST_BASE))
+    return Implies(Val.is_ref(r), Val.a(r) >= 0)
